@@ -344,6 +344,13 @@ func (c20) Eval(c *Chooser, env *Env) *Outcome {
 	if len(files) == 1 && c.Bool("world.singleapi") {
 		w.API = APIFile
 	}
+	viaMain := c.Weighted("world.viamain", 1, 4)
+	if viaMain {
+		// the same run through the command line: flags instead of options, JSON output parsed back
+		w.API = APIMain
+		w.Args = []string{"-format", "{{json .}}", "-no-color", "-shellcheck=" + w.Opts.Shellcheck, "-pyflakes=" + w.Opts.Pyflakes}
+		w.Args = append(w.Args, w.Files...)
+	}
 	o.World = w
 	// reference model
 	var expect []c20Inv
@@ -381,6 +388,9 @@ func (c20) Eval(c *Chooser, env *Env) *Outcome {
 	o.addRun(res.K)
 	if env.KeepTrace {
 		o.Traces = append(o.Traces, res.K.Trace)
+	}
+	if viaMain {
+		mainToLib(res, root)
 	}
 	k := res.K
 	o.Nontrivial = len(expect) >= 2 && k.MaxRunnable >= 2
@@ -560,6 +570,9 @@ func (c20) Eval(c *Chooser, env *Env) *Outcome {
 	// identical to the canonical run (zero latency, non-preemptive, identity map order)
 	r0 := RunLint(w, nil, RunOpts{Canonical: true})
 	o.addRun(r0.K)
+	if viaMain {
+		mainToLib(r0, root)
+	}
 	if runFailure("C20", r0.K) == nil && r0.Fatal == "" {
 		if what, cls := firstDiff(cmpOf(r0), cmpOf(res)); what != "" {
 			o.V = &Violation{Oracle: "schedule-independent-output", Class: "tools:" + cls,
@@ -576,4 +589,25 @@ func faultKinds(faulted []string) []string {
 		set[f[strings.LastIndex(f, "=")+1:]] = true
 	}
 	return sortedKeys(set)
+}
+
+// mainToLib turns the result of a Command.Main run with -format '{{json .}}' into the shape of a
+// library run: diagnostics parsed back from stdout, a fatal error from exit status 3.
+func mainToLib(res *LintResult, cwd string) {
+	if res.Exit == 3 {
+		res.Fatal = strings.TrimSpace(res.Stderr)
+		if res.Fatal == "" {
+			res.Fatal = "exit status 3"
+		}
+		return
+	}
+	ds, err := parseJSONDiags(res.Stdout, cwd)
+	if err != nil {
+		res.Fatal = "unparsable output: " + err.Error()
+		return
+	}
+	res.Errs = nil
+	for _, d := range ds {
+		res.Errs = append(res.Errs, ErrRec{File: strings.TrimPrefix(d.Abs, cwd+"/"), Line: d.Line, Col: d.Col, Kind: d.Kind, Msg: d.Msg})
+	}
 }
